@@ -114,6 +114,7 @@ def build(chk):
             p.fixed = []
             chk.count("bind.pair")
             progs.append(p)
+    progs += corelib.long_scope_programs(chk)
     for i, (tag, text) in enumerate(corelib.scope_type_family()):
         if tag == "W":
             p = Prog(text, [], "scope-type/%d" % i)
